@@ -98,7 +98,7 @@ func c17BaseDocOps(r *sim.Rand, slot int, multiHF bool) []sim.Op {
 
 func (c17) Gen(r *sim.Rand, c *sim.Case, tier string) {
 	k := []int{1, 2, 2, 3, 3}[r.Intn(5)]
-	tg := &TGen{R: r.Fork(), Else: false, Nested: r.Bool(), Newlines: r.Bool(), Hostile: r.Chance(0.3)}
+	tg := &TGen{R: r.Fork(), Else: true, Nested: r.Bool(), Newlines: r.Bool(), Hostile: r.Chance(0.3), VarRefs: r.Chance(0.4)}
 	if Wild {
 		// values that look like template syntax are re-scanned in map order (listed under C16): with them,
 		// repeatability fails for a reason that is not this property's own
